@@ -65,3 +65,25 @@ PROPS["C03"] = {
     "level_text": "Kernel-checked theorems: each checker run by the driver on the outputs (x1',x2',flag) of bwd_add/sub/mul/div/sqrt/abs/max/min/sign/floor/ceil/pow(n>=1) is sound for all intervals (any extended bounds) and all real tuples: accepted outputs are sub-intervals, contain every consistent tuple, and flag=false only if none exists; the projections are computed with exact rational arithmetic so that one-ulp rounding slips are decided, not sampled. Other operators: a sample point whose MPFR image enclosure lies in y must remain (sampleOk_sound).",
     "level_note": "Trusted: Lean kernel + Mathlib (axioms propext/Classical.choice/Quot.sound), harness/driver glue, MPFR oracle; correspondence sampled. Four genuine defects found and fixed (bwd_pow n=0 and negative odd n, bwd_atan2 with x=0, bwd_mul/bwd_div through gaol::div_rel rounding).",
 }
+
+def _expr_nontrivial(line, verdict):
+    return not ("undefined" in verdict or "unsupported" in verdict or "empty-result" in verdict or "harnesserror" in verdict or "builderror" in verdict)
+
+PROPS["C02"] = {
+    "modules": ["IbexProofs.Props.C02"],
+    "harnesses": ["h_expr"],
+    "workloads": lambda tier, seed: [
+        {"harness": "h_expr", "tag": "eval", "args": ["c02", seed, 500 if tier == "quick" else 20000]},
+    ],
+    "nontrivial": _expr_nontrivial,
+    "rule": "random well-typed expression DAGs built through the C++ API (scalar/vector/matrix variables and values, indexing, transposition, "
+            "vector construction, dot/matrix products, shared sub-expressions, applied functions, depth <= 4), 3 boxes each (degenerate, thin, wide, half-bounded), "
+            "optionally after an unrelated evaluation of the same Function (stale node domains); per box: the node-domain certificate, 4 exact point checks, "
+            "the typed entry points eval/eval_vector/eval_matrix, eval(i,box) and eval_vector(box,components); non-trivial = value defined and checked",
+    "assumptions": ["transcendental nodes are not generated by this workload (their operators are validated by C01 against MPFR); cert_sound takes their enclosure as hypothesis",
+                    "Minibex-text functions are covered by C10"],
+    "trusted": ["the DAG dumper of the harness (expr_io.h) reads ibex's own node structure"],
+    "technique": "Lean 4 proof (node-local certificate => enclosure of the real value at every point of the box, induction over the DAG incl. applied functions) + certificate check on the C++ node domains + exact rational point evaluation",
+    "level_text": "Kernel-checked theorem cert_sound: if the certificate checker accepts the node domains computed by the C++ for a box (each node domain contains the model's tightest operator applied to the C++ domains of its arguments) then for EVERY real point of the box every node value (in particular the function value) lies in its domain - for all DAGs of any size and sharing, with vector/matrix operators, indexing and applied functions; run_encl is the same statement for the model's own evaluator. The check runs the certificate on every evaluation and, independently, evaluates the user-level expression exactly (rationals) at sample points; component evaluations are checked against the exact components.",
+    "level_note": "Trusted: Lean kernel + Mathlib (axioms propext/Classical.choice/Quot.sound); harness dumper + driver glue; correspondence sampled. Two genuine defects found and fixed (index of a transposed vector; DimException in component functions).",
+}
